@@ -83,6 +83,18 @@ QueriesMC == Core \cup {Q("add", n, 0, a) : n \in {-2, -1, 1, 2}, a \in Expl} \c
 Rot == <<{"f", "p"}, {"p", "m"}, {"m", "f"}>>[(t % 3) + 1]
 Queries == Core \cup WithAdj(Rot)
 InDom == {q \in Queries : InDomain(c, q)}
+\* what the generator asks: every posed, pinned query - inside the claimed domain (an answer is owed) and beyond the range
+\* (the adjusted day, an intermediate day or the result leaves [lo, hi]: the answer by counting, or a refusal)
+Asked == {q \in Queries : Posed(c, q) /\ Pinned(c, q)}
+\* the realisation of the day(s) of each case rotates with the case (about half of them midnight datetimes)
+RealSeq  == <<"dt", "tod", "dt", "ts", "dt", "tstod", "dt", "date", "tod">>
+RealSeq2 == <<"tod", "tstod", "date", "ts", "tod">>
+RealOf(q)  == RealSeq[((q.t + 3 * q.n + q.u + (IF q.a = "" THEN 0 ELSE 4) + 9000) % 9) + 1]
+RealOf2(q) == RealSeq2[((q.t + q.n + 9000) % 5) + 1]
+\* phase 2 of the session on the one calendar object: once the table has been built by the cases, the questions that
+\* never need it are asked again, the day carried by another realisation - same answers (no memory, no index lookups of stamps)
+AfterOps == {"is_bday", "is_holiday", "adjust", "add", "bump0"}
+After == {q \in Asked : q.op \in AfterOps /\ ~Populates(q)}
 
 \* ---- the laws of the statement, on the law level -------------------------------------------
 AdjustLaw == ~done \/
@@ -115,6 +127,9 @@ DrangeLaw == ~done \/ \A u \in UsD :
 
 \* ---- the mechanism of the code equals the law level on the claimed domain ------------------
 MechanismIsLaw == ~done \/ LET tab == BTable(c) IN \A q \in QueriesMC : (InDomain(c, q) /\ Pinned(c, q)) => MechAnswer(c, tab, q) \in AcceptedAnswers(c, q)
+\* ... and beyond the range it answers as the law level counts, or refuses (RefusalBeyondRange); it never hangs
+BeyondIsLawOrRefusal == ~done \/ LET tab == BTable(c) IN \A q \in QueriesMC : (Posed(c, q) /\ Pinned(c, q) /\ ~InDomain(c, q)) =>
+                            LET m == MechAnswer(c, tab, q) IN m \in AcceptedAnswers(c, q) \/ MRefused(m)
 \* the two paths of add agree wherever both are defined: the table path asked for |n| <= 1 and the
 \* loop path composed for |n| = 2
 PathsAgree == ~done \/ LET tab == BTable(c)  a == c.adj IN
@@ -133,8 +148,11 @@ Straddles == \A k \in Anchors : /\ \E d \in WinLo(k)..(WinHi(k) - 1) : ~SameMont
 
 \* ---- S2C generator: every in-domain pinned query about (c, t) with the expected answer -------
 \* (a seeded 1-in-GenMod sample of the configurations; each case is <<op, n, u, a, accepted answers>>)
+\* each case is <<op, n, u, a, accepted answers, accepted refusals (none inside the domain), realisation>>
+CaseOf(q, r) == <<q.op, q.n, q.u, q.a, SetToSeq(AcceptedAnswers(c, q)), SetToSeq(RefusalsFor(c, q)), r>>
 Emit == [cfg |-> [hol |-> SetToSortSeq(c.hol, <), wk |-> SetToSortSeq(c.wk, <), adj |-> c.adj, lo |-> c.lo, hi |-> c.hi],
          t |-> t,
-         cases |-> SetToSeq({<<q.op, q.n, q.u, q.a, SetToSeq(AcceptedAnswers(c, q))>> : q \in {x \in InDom : Pinned(c, x)}})]
+         cases |-> SetToSeq({CaseOf(q, RealOf(q)) : q \in Asked}),
+         after |-> IF \E q \in Asked : Populates(q) /\ InDomain(c, q) THEN SetToSeq({CaseOf(q, RealOf2(q)) : q \in After}) ELSE <<>>]
 EvalGen == Eval /\ (Sampled(c, GenMod) => PrintT(ToJson(Emit)))
 =============================================================================
